@@ -200,7 +200,7 @@ def replay(data):
 
 TB = [
     "Coq 8.16.1 kernel + coqc; vm_compute for the correspondence",
-    "axioms: stdlib Reals axioms for PropertyR.v (Cauchy-Schwarz based optimality); index theorems over Z/Q axiom-free",
+    "axioms: stdlib Reals axioms (ClassicalDedekindReals.sig_forall_dec, sig_not_dec, FunctionalExtensionality.functional_extensionality_dep; coqchk -o also lists Classical_Prop.classic) for PropertyR.v (Cauchy-Schwarz based optimality); index theorems over Z/Q axiom-free",
     "translator: the C05 anchor set (padding, crop, midpoints, mesh, FSC phase range, PCC crop/unwrap)",
     "assumed kernel laws: FFT-based correlation equals the direct sum; Fourier shift theorem sign; numpy argmax",
 ]
